@@ -61,6 +61,7 @@ def run(ctx):
                         lengths = sorted({1, nt + 1, nt + 3} | ({nt} if nt > 1 else set()))
                     for N in lengths:
                         one(ctx, ex, cplx, step, order, nt, N)
+    vector(ctx, ex)
     reuse(ctx, ex)
     nonneg(ctx, ex)
     rep.notes['trusted_base'] = ['python ast', 'ndverif abstract interpreter', 'convolve1d summary (DESIGN section 7)',
@@ -174,6 +175,51 @@ def one(ctx, ex, cplx, step, order, nt, N):
               'column c only depends on column c', label, key='axis0')
 
 
+def vector(ctx, ex):
+    """A 1-d sequence is one column: same slots and values as the (N, 1) column."""
+    rep = ctx.rep
+    construct, where = 'extrapolation.Richardson.__call__', ex.relpath
+    for order, step, nt, N in ((1, 1, 1, 3), (2, 2, 2, 5), (1, 1, 2, 2), (2, 1, 0, 1), (4, 2, 1, 4)):
+        label = '1-d sequence/step=%d/order=%d/num_terms=%d/len=%d' % (step, order, nt, N)
+        outs = []
+        for as_column in (False, True):
+            I, models, reg = make(ctx.repo)
+            R = I.get_global('extrapolation', 'Richardson')
+            r, h = Poly.sym('r'), Poly.sym('h')
+            vals, hs = [], []
+            for i in range(N):
+                hi = h * r ** (-i)
+                hs.append(hi)
+                v = Poly.sym('L0')
+                for j in range(nt + 2):
+                    v = v + Poly.sym('a0_%d' % j) * hi ** (order + step * j)
+                vals.append(v)
+            shape = (N, 1) if as_column else (N,)
+            try:
+                out, err, st = R(step_ratio=r, step=step, order=order, num_terms=nt)(Arr(shape, list(vals)), Arr(shape, list(hs)))
+            except InterpRaise as exc:
+                rep.violation('R-AXIS0', construct, where, {'raises': exc.exc_name, 'message': exc.msg[:100]},
+                              'a 1-d sequence is accepted', label, key='vector raises')
+                outs = None
+                break
+            outs.append((out, err, st, reg))
+        if not outs:
+            continue
+        (o1, e1, s1, reg1), (o2, e2, s2, reg2) = outs
+        used = min(nt, N - 1)
+        m = N - used
+        problems = []
+        if getattr(o1, 'shape', None) != (m,) or getattr(s1, 'shape', None) != (m,):
+            problems.append('shapes %s / %s for a vector of length %d, expected (%d,)' % (getattr(o1, 'shape', None), getattr(s1, 'shape', None), N, m))
+        elif getattr(o2, 'shape', None) == (m, 1):
+            a = [repr(reg1.resolve(Poly.of(v))[:2]) for v in o1.items()]
+            b = [repr(reg2.resolve(Poly.of(v))[:2]) for v in o2.items()]
+            if a != b:
+                problems.append('values differ from those of the (N, 1) column: %s vs %s' % (a[0][:60], b[0][:60]))
+        rep.check(not problems, 'R-AXIS0', construct, where, {'problems': problems[:2]},
+                  'N - terms slots, the values of the single column', label, key='vector')
+
+
 def reuse(ctx, ex):
     """A Richardson object that was used before and then reconfigured behaves like a fresh one."""
     rep = ctx.rep
@@ -262,13 +308,16 @@ def column_exponents_c(M):
 def nonneg(ctx, ex):
     """All three branches of _estimate_error in the sign domain."""
     rep = ctx.rep
-    for N, nt in ((1, 2), (2, 2), (3, 2), (6, 2), (2, 0), (5, 3), (4, 3)):
-        def body(s, N=N, nt=nt):
+    for N, nt, cplx in ((1, 2, False), (2, 2, False), (3, 2, False), (6, 2, False), (2, 0, False), (5, 3, False), (4, 3, False),
+                        (3, 2, True), (6, 2, True), (5, 3, True)):
+        def body(s, N=N, nt=nt, cplx=cplx):
             I = s.interp
             R = I.get_global('extrapolation', 'Richardson')
-            seq = Arr((N, 2), [DV({('x', c)}, 'f') for i in range(N) for c in range(2)])
+            kind = 'c' if cplx else 'f'
+            seq = Arr((N, 2), [DV({('x', c)}, kind) for i in range(N) for c in range(2)])
             steps = Arr((N, 2), [DV({('x', c)}, 'f', 'pos') for i in range(N) for c in range(2)])
-            return R(step_ratio=Poly.sym('r'), step=1, order=1, num_terms=nt)(seq, steps)
+            ratio = Poly.sym('r') * (Poly.const(Z8.ZETA) if cplx else 1)       # a complex ratio (spiral path) gives complex weights
+            return R(step_ratio=ratio, step=1, order=1, num_terms=nt)(seq, steps)
         exr = explore(ctx.repo, body)
         bad = []
         for decisions, res, exc in exr.paths:
@@ -277,8 +326,8 @@ def nonneg(ctx, ex):
                 continue
             err = res[1]
             for e in (err.items() if isinstance(err, Arr) else [err]):
-                if not (isinstance(e, DV) and e.sign in ('nonneg', 'pos')):
+                if not (isinstance(e, DV) and e.sign in ('nonneg', 'pos') and e.kind not in ('c', 'z')):
                     bad.append(repr(e))
         rep.check(not bad, 'R-NONNEG', 'extrapolation.Richardson._estimate_error', ex.relpath,
-                  {'paths': len(exr.paths), 'not_provably_nonneg': bad[:3]}, 'abserr >= 0',
-                  'len=%d/num_terms=%d' % (N, nt), key='nonneg')
+                  {'paths': len(exr.paths), 'not_provably_nonneg': bad[:3]}, 'abserr is real and >= 0',
+                  'len=%d/num_terms=%d%s' % (N, nt, '/complex ratio and data' if cplx else ''), key='nonneg')
